@@ -17,6 +17,24 @@ from sa.front import Program, AnalysisError   # noqa: E402
 from sa.report import Report                  # noqa: E402
 
 
+def run_selftest(prop):
+    """Thorough tier: sensitivity self-test of this property's rules (selftest/run.py)."""
+    import subprocess
+    st = os.path.join(os.path.dirname(HERE), 'selftest', 'run.py')
+    pr = subprocess.run([sys.executable, st, prop], stdout=subprocess.PIPE, stderr=subprocess.STDOUT,
+                        universal_newlines=True)
+    lines = pr.stdout.splitlines()
+    for l in lines:
+        if not l.startswith('SELFTEST OK'):
+            print(l)
+    summ = {'entries': sum(1 for l in lines if l.startswith('SELFTEST ') and ' entries' not in l),
+            'ok': sum(1 for l in lines if l.startswith('SELFTEST OK')),
+            'failed': [l for l in lines if l.startswith('SELFTEST ') and not l.startswith('SELFTEST OK')
+                       and ' entries' not in l][:20]}
+    print('SELFTEST summary: %(ok)d of %(entries)d entries as expected' % summ)
+    return pr.returncode, summ
+
+
 def main(argv):
     if len(argv) < 2:
         print(__doc__)
@@ -34,6 +52,14 @@ def main(argv):
         rep.analysed['modules'] = len(prog.modules)
         rep.analysed['tree_digest'] = prog.digest()
         mod.check(prog, rep, tier)
+        if tier == 'thorough':
+            rc_st, summary = run_selftest(prop)
+            rep.selftest = summary
+            if rc_st != 0:
+                rep.finish()
+                print('ANALYSIS-ERROR %s: checker self-test failed (a mutant was missed or a refactor '
+                      'twin raised an alarm); see output above' % prop)
+                return 2
         return rep.finish()
     except AnalysisError as e:
         print('ANALYSIS-ERROR %s: %s' % (prop, e))
